@@ -162,6 +162,12 @@ func c12Handler(c *Ctx) {
 			kind := r.PickS("stpp", "wvtt")
 			lang := r.PickS("en", "sv", "zz")
 			cueDur := r.Pick(900, 250, 1000, 500)
+			longCue := r.Intn(4) == 0
+			if longCue {
+				// cue durations above 1 s (known finding F-C12-2: one cue every ceil(dur/1000) s): the served segments are
+				// held against the cue list of the tied core (`calcCueItvls`, op `cue`), not against the property
+				cueDur = r.Pick(1500, 1800, 2500, 3000, 1001)
+			}
 			startS := r.Pick(0, 61, 1600000000)
 			mode := r.PickS("n", "tlt", "tln")
 			reg := r.Intn(2)
@@ -216,6 +222,13 @@ func c12Handler(c *Ctx) {
 				continue
 			}
 			want := wantCues(int(wantT), int(wantD), startS, cueDur)
+			if longCue {
+				want = nil
+				for _, ci := range app.VerifCalcCueItvls(int(wantT), int(wantD), int(wantT)+startS*1000, cueDur) {
+					want = append(want, cueT{ci[0], ci[1], ci[2]})
+				}
+				c.Count("handler.long-cue")
+			}
 			var got []cueT
 			var texts []string
 			if kind == "stpp" {
